@@ -12,6 +12,9 @@ mod json;
 mod model;
 mod prog;
 
+#[global_allocator]
+static ALLOC: model::quarantine::Alloc = model::quarantine::Alloc;
+
 use std::collections::{BTreeMap, BTreeSet};
 use std::io::{BufRead, BufReader, Write};
 use std::process::{Child, ChildStdin, ChildStdout, Command, Stdio};
@@ -177,26 +180,28 @@ impl Lean {
 struct LeanCtx {
     lean: Option<Lean>,
     error: Option<String>,
+    /// the implementation runs with debug assertions: send `debug=1` with every program
+    debug: bool,
 }
 
 impl LeanCtx {
-    fn new(path: Option<&str>) -> LeanCtx {
+    fn new(path: Option<&str>, debug: bool) -> LeanCtx {
         match path.map(Lean::spawn) {
-            None => LeanCtx { lean: None, error: None },
-            Some(Ok(l)) => LeanCtx { lean: Some(l), error: None },
-            Some(Err(e)) => LeanCtx { lean: None, error: Some(e) },
+            None => LeanCtx { lean: None, error: None, debug },
+            Some(Ok(l)) => LeanCtx { lean: Some(l), error: None, debug },
+            Some(Err(e)) => LeanCtx { lean: None, error: Some(e), debug },
         }
     }
 
     fn query(&mut self, p: &Prog) -> Option<LeanResult> {
         let l = self.lean.as_mut()?;
-        match l.query(&p.lean_line()) {
+        match l.query(&p.lean_line(self.debug)) {
             Ok(mut r) => {
                 r.outcomes = r.outcomes.iter().map(|o| p.strip_phantom(o)).collect();
                 Some(r)
             }
             Err(e) => {
-                self.error = Some(format!("on `{}`: {e}", p.lean_line()));
+                self.error = Some(format!("on `{}`: {e}", p.lean_line(self.debug)));
                 if let Some(l) = self.lean.take() {
                     l.abandon();
                 }
@@ -423,6 +428,7 @@ fn monitor_expected(kind: &str) -> &'static str {
         "use-after-free" => "the buffer is released only after the last access by any thread (no handle outlives the free)",
         "leak" => "the buffer is released exactly once, when the last handle is dropped",
         "content" => "each value still reads its expected content: final payload == number of granted mutations",
+        "panic" => "no panic in clone/drop/is_unique/as_mut/try_unwrap of a correct program",
         "unique-while-shared" => "in-place mutable access or ownership is granted only if no other handle still refers to the buffer",
         "freed-while-alive" => "the buffer is released exactly once and only after the last handle is gone",
         "count-mismatch" => "the share count never exceeds its ceiling: a clone at the ceiling must take a private copy",
@@ -437,8 +443,17 @@ fn monitor_expected(kind: &str) -> &'static str {
 fn main() {
     let args = parse_args();
     let start = Instant::now();
-    if !args.verbose {
-        std::panic::set_hook(Box::new(|_| {}));
+    model::install_panic_hook(args.verbose);
+    // the profile of the code under test: VERIF_PROFILE (set by ./check) or how we were built
+    let profile: String = match std::env::var("VERIF_PROFILE") {
+        Ok(v) if v == "debug" || v == "release" => v,
+        _ => if cfg!(debug_assertions) { "debug" } else { "release" }.to_string(),
+    };
+    if (profile == "debug") != cfg!(debug_assertions) {
+        eprintln!(
+            "loomdrive: warning: VERIF_PROFILE={profile} but this binary was built {} debug assertions",
+            if cfg!(debug_assertions) { "with" } else { "without" }
+        );
     }
     model::set_verbose(args.verbose);
 
@@ -477,7 +492,7 @@ fn main() {
     // thorough tier without an explicit --bound: unbounded pass + bounded complement pass
     let complement = args.tier == "thorough" && args.bound.is_none();
 
-    let mut lean = LeanCtx::new(args.lean.as_deref());
+    let mut lean = LeanCtx::new(args.lean.as_deref(), profile == "debug");
 
     let mut evals: Vec<Eval> = Vec::new();
     for p in &progs {
@@ -617,7 +632,7 @@ fn main() {
             d.raw("input", &json::str_array(std::iter::once(ev.prog.line().as_str())));
             d.str("expected", monitor_expected(kind));
             d.str("observed", ev.loom.message.as_deref().unwrap_or(kind));
-            d.str("profile", if cfg!(debug_assertions) { "debug" } else { "release" });
+            d.str("profile", &profile);
             d.num("failing_execution", ev.loom.iterations);
             if let Some(o) = &ev.shrunk_from {
                 d.str("shrunk_from", o);
@@ -654,7 +669,7 @@ fn main() {
                     ev.loom.message.as_ref().map(|m| format!(" message={m}")).unwrap_or_default()
                 ),
             );
-            d.str("profile", if cfg!(debug_assertions) { "debug" } else { "release" });
+            d.str("profile", &profile);
             d.str("why", ev.problem.as_deref().unwrap_or(""));
             if let Some(o) = &ev.shrunk_from {
                 d.str("shrunk_from", o);
@@ -689,6 +704,7 @@ fn main() {
     j.num("outcome_sets_equal", quick_equal as u64);
     j.num("programs_bounded", evals.iter().filter(|e| e.loom.bound.is_some()).count() as u64);
     j.raw("notes", &json::str_array(notes.iter().map(|s| s.as_str())));
+    j.str("profile", &profile);
     j.str("tier", &args.tier);
     j.num("seed", args.seed);
     j.boolean("lean_compared", args.lean.is_some() && lean_error.is_none());
